@@ -79,7 +79,8 @@ Inductive ostep :=
 | OVerify (now : Z) (h : height) (proof_nil : bool) (ack : bool) (seq : N) (val : bytes)
           (decodes member : bool) (v_class : nat) (store_after : store).
 
-Record hist := { hs_init : store; hs_steps : list ostep }.
+(** [hs_valid]: observed result class of ClientState.Validate on the client the history starts with *)
+Record hist := { hs_init : store; hs_valid : nat; hs_steps : list ostep }.
 
 Definition step_store (o : ostep) : store :=
   match o with
@@ -141,8 +142,15 @@ Fixpoint cmp_steps (i : nat) (pre : store) (l : list ostep) : list (nat * nat) :
 Fixpoint number {A} (i : nat) (l : list A) : list (nat * A) :=
   match l with [] => [] | x :: l' => (i, x) :: number (S i) l' end.
 
+(** kind 10 (reported at step 0): ClientState.Validate class of the initial client state *)
+Definition cmp_hist (h : hist) : list (nat * nat) :=
+  (match client_of (hs_init h) with
+   | Some cs => if Nat.eqb (hs_valid h) (if client_validate cs then 0 else 1) then [] else [(0%nat, 10%nat)]
+   | None => [(0%nat, 9%nat)]
+   end) ++ cmp_steps 0 (hs_init h) (hs_steps h).
+
 Definition mismatches (hs : list hist) : list (nat * (nat * nat)) :=
-  flat_map (fun ih => map (fun m => (fst ih, m)) (cmp_steps 0 (hs_init (snd ih)) (hs_steps (snd ih)))) (number 0 hs).
+  flat_map (fun ih => map (fun m => (fst ih, m)) (cmp_hist (snd ih))) (number 0 hs).
 
 (** * Monitor: the property itself on the implementation's observed trace,
     written declaratively (full tallies instead of the early-exit loops, key-wise
@@ -175,7 +183,9 @@ Definition iter_heights (s : store) : list height :=
 Definition min_height (l : list height) : option height :=
   fold_right (fun h acc => match acc with None => Some h | Some m => if h_lt h m then Some h else Some m end) None l.
 
-Definition mon_update (pre post : store) (now : Z) (hdr : header) (ot : oracle_tab) : list nat :=
+(** [valid]: the configuration passed the real ClientState.Validate; the trust-level clause is the
+    property's claim for admissible configurations only *)
+Definition mon_update (valid : bool) (pre post : store) (now : Z) (hdr : header) (ot : oracle_tab) : list nat :=
   match client_of pre, h_signed hdr with
   | Some cs, Some sh =>
       match sh_header sh, sh_commit sh with
@@ -195,7 +205,7 @@ Definition mon_update (pre post : store) (now : Z) (hdr : header) (ot : oracle_t
                 then [] else [13%nat]) ++
                (if adjacent
                 then if bytes_eqb (tab_valset_hash ot own) (c_nvh tc) then [] else [16%nat]
-                else if Z.of_N (cs_tl_den cs) * signed_trusted vs chain c tv >? Z.of_N (cs_tl_num cs) * total_of tv
+                else if negb valid || (Z.of_N (cs_tl_den cs) * signed_trusted vs chain c tv >? Z.of_N (cs_tl_num cs) * total_of tv)
                      then [] else [16%nat])
            | _ => [11%nat]
            end) ++
@@ -215,9 +225,9 @@ Definition mon_update (pre post : store) (now : Z) (hdr : header) (ot : oracle_t
            let latest' := if h_gt hh (cs_latest cs) then hh else cs_latest cs in
            let expected (k : bytes) : option value :=
              if bytes_eqb k (cons_key hh) then Some (VCons (new_cons_state h))
-             else if bytes_eqb k (pt_key hh) then Some (VBytes (be64 (u64 now)))
-             else if bytes_eqb k (iter_key hh) then Some (VBytes (cons_key hh))
              else if bytes_eqb k client_key then Some (VClient (with_latest cs latest'))
+             else if bytes_eqb k (iter_key hh) then Some (VBytes (cons_key hh))
+             else if bytes_eqb k (pt_key hh) then Some (VBytes (be64 (u64 now)))
              else match pruned with
                   | Some p => if bytes_eqb k (cons_key p) || bytes_eqb k (pt_key p) || bytes_eqb k (iter_key p)
                               then None else sget k pre
@@ -251,24 +261,25 @@ Definition mon_verify (pre post : store) (now : Z) (h : height) (proof_nil decod
       (if store_eqb pre post then [] else [25%nat])
   end.
 
-Definition mon_step (pre : store) (o : ostep) : list nat :=
+Definition mon_step (valid : bool) (pre : store) (o : ostep) : list nat :=
   match o with
   | OUpdate now hdr ot _ _ _ _ _ keeper_class store_after =>
-      if Nat.eqb keeper_class 0 then mon_update pre store_after now hdr ot
+      if Nat.eqb keeper_class 0 then mon_update valid pre store_after now hdr ot
       else if store_eqb pre store_after then [] else [17%nat]
   | OVerify now h proof_nil _ _ _ decodes member v_class store_after =>
       if Nat.eqb v_class 0 then mon_verify pre store_after now h proof_nil decodes member
       else if store_eqb pre store_after then [] else [25%nat]
   end.
 
-Fixpoint mon_steps (i : nat) (pre : store) (l : list ostep) : list (nat * nat) :=
+Fixpoint mon_steps (valid : bool) (i : nat) (pre : store) (l : list ostep) : list (nat * nat) :=
   match l with
   | [] => []
-  | o :: l' => map (fun k => (i, k)) (mon_step pre o) ++ mon_steps (S i) (step_store o) l'
+  | o :: l' => map (fun k => (i, k)) (mon_step valid pre o) ++ mon_steps valid (S i) (step_store o) l'
   end.
 
 Definition monitor_failures (hs : list hist) : list (nat * (nat * nat)) :=
-  flat_map (fun ih => map (fun m => (fst ih, m)) (mon_steps 0 (hs_init (snd ih)) (hs_steps (snd ih)))) (number 0 hs).
+  flat_map (fun ih => map (fun m => (fst ih, m))
+                          (mon_steps (Nat.eqb (hs_valid (snd ih)) 0) 0 (hs_init (snd ih)) (hs_steps (snd ih)))) (number 0 hs).
 
 (** * Hex literals: the case files write byte strings as [hx "0a1b…"] (parsed
     far faster than list notation; decoded inside [vm_compute]) *)
